@@ -39,6 +39,10 @@ def rnd(src, n, sd, **kw):
     return dict(src=src, random_steps=n, seed=sd, **kw)
 
 
+def agt(src, cap, sd, **kw):
+    return dict(src=src, agents=cap, seed=sd, extras=False, **kw)
+
+
 def gen_src(name, seed, **params):
     p = dict(num_hosts=5, num_services=2, seed=seed)
     p.update(params)
@@ -76,6 +80,10 @@ def dynamic_jobs(tier, seed, prop):
             jobs.append(rnd(("bench_yaml", "tiny-small"), 700, seed + 3))
             jobs.append(rnd(gen_src("dvsum", seed % 50, num_hosts=12, num_services=2, host_discovery_value=3,
                                     r_sensitive=10, r_user=4, base_host_value=0.5), 500, seed + 6))
+            # the repository's own drivers (bruteforce agent = what its test-suite runs, random agent) against a
+            # recording proxy; numpy's own generator draws
+            jobs.append(agt(("bench_yaml", "tiny"), 800, seed + 7, modes=ALL_MODES))
+            jobs.append(agt(("bench_yaml", "small"), 700, seed + 8))
             if prop in ("C07", "C14"):
                 # numpy's own generator draws (seeded by the harness), the draw is recorded, not scripted
                 # (one environment per process, so that nothing else draws from the global generator)
@@ -133,6 +141,10 @@ def dynamic_jobs(tier, seed, prop):
         if prop in BASE_PROPS:
             for n in ["medium", "medium-single-site"]:
                 jobs.append(dict(src=("bench_yaml", n), spec_only=True, workers=8, timeout=7200))
+            for i, n in enumerate(["tiny-hard", "small-honeypot", "small-linear", "medium", "medium-multi-site"]):
+                jobs.append(agt(("bench_yaml", n), 2500, seed + 400 + i, modes=ALL_MODES))
+            for i, n in enumerate(["tiny-gen", "small-gen", "medium-gen"]):
+                jobs.append(agt(("bench_gen", n, (seed + i) % 100), 2500, seed + 420 + i, modes=ALL_MODES))
         ls = prop == "C12"
         md = ALL_MODES if prop in ("C10", "C12") else replay_default()
         for i, n in enumerate(corpus.YAML_BENCHMARKS):
@@ -142,7 +154,7 @@ def dynamic_jobs(tier, seed, prop):
                 jobs.append(rnd(("bench_gen", n, (seed + s_) % 100), (2500 if i < 6 else 1200) if not ls else 400,
                                 seed + 100 + 2 * i + s_, modes=md, lockstep=ls))
     # longest first so that the pool is used well
-    jobs.sort(key=lambda j: -(j.get("random_steps", 0) * len(j.get("modes", (1, 2)))
+    jobs.sort(key=lambda j: -((j.get("random_steps", 0) + 3 * j.get("agents", 0)) * len(j.get("modes", (1, 2)))
                               + (100000 if j.get("exhaustive") else 0) * len(j.get("modes", (1, 2)))))
     return jobs
 
@@ -198,7 +210,8 @@ def check_dynamic(prop, tier, seed):
             seen_gates.add((kind_, gate_))
         per_scn.append(dict(scenario=r["name"], spec_states=r["states"], spec_transitions=r["transitions"],
                             transitions_replayed=r["edges_replayed"], recorded_calls=r["events"],
-                            gate_classes=len(r["hist"]), wall_s=round(r["wall"], 1)))
+                            gate_classes=len(r["hist"]), wall_s=round(r["wall"], 1),
+                            **({"repository_agents": r["agents"]} if r.get("agents") else {})))
         if len(samples) < 3 and r.get("sample"):
             samples.append(dict(scenario=r["name"], event=r["sample"][0]))
         for (p, c, i) in r["fails"]:
